@@ -35,6 +35,8 @@ type cenv struct {
 	lets    map[string]Expr
 	errs    *[]string
 	depth   int
+	inOld   bool // inside old(...): parameters denote entry values, not loop-carried ones
+	nowState *State // the current state while evaluating inside old(...), for now(...)
 }
 
 func (vc *VC) pkgOf(short string) *types.Package {
@@ -117,8 +119,9 @@ func (e *cenv) eval(x Expr) cval {
 		return e.ident(x.Name)
 	case *EOld:
 		c := *e
+		c.nowState = e.cur
 		c.cur = e.old
-		c.frame = nil
+		c.inOld = true
 		return c.eval(x.X)
 	case *EUn:
 		v := e.eval(x.X)
@@ -128,9 +131,6 @@ func (e *cenv) eval(x Expr) cval {
 		case "-":
 			return intv("(- " + v.t + ")")
 		case "*":
-			if v.addr != nil {
-				return e.readAddr(v.addr)
-			}
 			if pt, ok := derefPtr(v.typ); ok && !isAggregate(pt) {
 				return e.readAddr(vc.cellAddr(pt, v.t))
 			}
@@ -210,7 +210,7 @@ func (e *cenv) ident(name string) cval {
 	vc := e.vc
 	// inside a loop context the loop-carried value (phi) of a reassigned
 	// parameter takes precedence; old(...) drops the frame and sees the entry value
-	if e.frame != nil {
+	if e.frame != nil && !e.inOld {
 		if v, ok := e.frame.names[name]; ok {
 			if _, isPhi := v.(*ssa.Phi); isPhi {
 				if _, bound := e.frame.vals[v]; bound {
@@ -535,6 +535,12 @@ func (e *cenv) index(x *EIndex) cval {
 		}
 		ev := vc.elemVar(t.Elem())
 		a := &Addr{Kind: "elem", Var: ev, Ref: "(s_base " + b.t + ")", Idx: fmt.Sprintf("(+ (s_off %s) %s)", b.t, i.t), Sort: vc.sortOf(t.Elem()), Typ: t.Elem()}
+		if strings.Contains(i.t, "!q") {
+			// under a quantifier: go through sl_at so that the instantiation trigger
+			// is a clean function application instead of an arithmetic term
+			fn := vc.slAt(vc.sortOf(t.Elem()))
+			return cval{t: fmt.Sprintf("(%s (select %s (s_base %s)) (s_off %s) %s)", fn, vc.look(e.cur, ev), b.t, b.t, i.t), sort: vc.sortOf(t.Elem()), typ: t.Elem(), addr: a}
+		}
 		return e.readAddr(a)
 	case *types.Map:
 		has, val, _ := vc.mapVars(t)
@@ -594,8 +600,29 @@ func (e *cenv) quant(x *EQuant) cval {
 			ps = append(ps, c.eval(p).t)
 		}
 		body = fmt.Sprintf("(! %s :pattern (%s))", body, strings.Join(ps, " "))
+		return boolv(fmt.Sprintf("(%s (%s) %s)", q, strings.Join(binders, " "), body))
 	}
-	return boolv(fmt.Sprintf("(%s (%s) %s)", q, strings.Join(binders, " "), body))
+	plain := fmt.Sprintf("(%s (%s) %s)", q, strings.Join(binders, " "), body)
+	if !x.Forall {
+		return boolv(plain)
+	}
+	// second copy with a neutral trigger per bound variable: a negated goal's
+	// skolem constants then instantiate the assumed clauses whatever heap version
+	// their terms mention (trig is true everywhere)
+	var trigs []string
+	allInt := true
+	for _, v := range x.Vars {
+		cv := c.vars[v.Name]
+		if cv.sort != "Int" {
+			allInt = false
+		}
+		trigs = append(trigs, "(trig "+cv.t+")")
+	}
+	if !allInt || len(x.Vars) > 2 {
+		return boolv(plain)
+	}
+	trigged := fmt.Sprintf("(forall (%s) (! (=> %s %s) :pattern (%s)))", strings.Join(binders, " "), sAnd(trigs...), body, strings.Join(trigs, " "))
+	return boolv("(and " + plain + " " + trigged + ")")
 }
 
 // resolveType parses a type text like "*message", "[]byte", "*utils.Args".
@@ -786,6 +813,19 @@ func (e *cenv) callExpr(x *ECall) cval {
 			return cval{t: a.addr.Ref, sort: "Int"}
 		}
 		return e.fail("addr(%s): not a location", x.Args[0])
+	case "now":
+		// now(e) inside old(...): evaluate e in the current state again
+		if !need(1) {
+			return intv("0")
+		}
+		if e.nowState == nil {
+			return arg(0)
+		}
+		c := *e
+		c.cur = e.nowState
+		c.inOld = false
+		c.nowState = nil
+		return c.eval(x.Args[0])
 	case "rowof":
 		// the element row (index -> element) of a slice's backing array in the current state
 		if !need(1) {
